@@ -3,6 +3,8 @@
 //	c10 probe                                      which instrumentation points of End fire, in which order (JSON)
 //	c10 random  -n N -out TRACE -res R             seeded random scenarios with schedule perturbation
 //	c10 scripts -in FILE -out TRACE -res R         TLC behaviours / directed schedules replayed with gates
+//	    -impl N (random, scripts)                  the first N scenarios (-1: all) also record the implementation-level
+//	                                               trace: pid per line, Gate lines, ICfg (Trace_SpanEndImpl.tla)
 //
 // Every scenario shares ONE real recording span (plus its children) between goroutines that call End,
 // the mutators, IsRecording and child Start concurrently, with runtime/trace started or not (so that
@@ -66,6 +68,10 @@ type Scenario struct {
 	Tight        bool     `json:"tight"` // no jitter: all goroutines spin on a barrier and make their first call together
 	Script       []string `json:"script,omitempty"`
 	Seed         int64    `json:"seed"`
+	// Impl: record the implementation-level trace as well (Trace_SpanEndImpl.tla): every line of a process carries
+	// the id of the CALL it belongs to (pid = one process of SpanEnd.tla), one Gate line per natural gate passed
+	// (user code the SDK calls), one ICfg line naming the processes of the scenario.
+	Impl bool `json:"impl"`
 }
 
 var tsBase = time.Date(2030, 1, 1, 0, 0, 0, 0, time.UTC)
@@ -89,6 +95,7 @@ func goid() uint64 {
 type procInfo struct {
 	name string
 	st   *scState
+	pid  string // the call of this goroutine that is under way (a process of SpanEnd.tla); only its own goroutine touches it
 }
 
 var (
@@ -133,6 +140,9 @@ type scState struct {
 	rw       map[int]sdktrace.ReadWriteSpan
 	// outcome of the shared span, compared by the driver with the outcome TLC predicts for a replayed behaviour
 	handed []int // per processor: OnEnd calls
+	// implementation-level trace (sc.Impl)
+	tokPid map[int]string // mutation token -> pid of the call that carries it
+	tsPid  map[int]string // explicit end timestamp index -> pid of the End call that carries it
 	nfull  int   // tokens wholly present in the last snapshot handed over
 	child  int   // child count of that snapshot (-1: none yet)
 }
@@ -284,6 +294,22 @@ func (st *scState) emit(ev map[string]any) {
 	st.tw.Emit(ev)
 }
 
+// with adds the pid of the call under way to a line of an implementation-level trace.
+func (st *scState) with(pi *procInfo, ev map[string]any) map[string]any {
+	if st.sc.Impl && pi != nil {
+		ev["pid"] = pi.pid
+	}
+	return ev
+}
+
+// gateLine: one line per natural gate passed (user code the SDK calls), written by the calling goroutine inside
+// that user code, i.e. while whatever lock the SDK holds around it is held.
+func (st *scState) gateLine(pi *procInfo, point string) {
+	if st.sc.Impl && pi != nil {
+		st.emit(map[string]any{"ev": "Gate", "point": point, "proc": pi.name, "pid": pi.pid, "span": 1})
+	}
+}
+
 // gate: strict two-phase gate ("x@g+" = arrived, "x@g" = released), see SpanEndSim.tla.
 func (st *scState) gate(proc, point string) {
 	k := proc + "@" + point
@@ -355,7 +381,7 @@ type gateErr struct {
 }
 
 func (e *gateErr) Error() string {
-	e.once.Do(func() { e.st.userGate(e.proc, "err.Error", e.r) })
+	e.once.Do(func() { e.st.gateLine(me(), "err.Error"); e.st.userGate(e.proc, "err.Error", e.r) })
 	return e.msg
 }
 
@@ -368,7 +394,7 @@ type gatePanic struct {
 }
 
 func (v *gatePanic) Error() string {
-	v.once.Do(func() { v.st.userGate(v.proc, "panic.Format", v.r) })
+	v.once.Do(func() { v.st.gateLine(me(), "panic.Format"); v.st.userGate(v.proc, "panic.Format", v.r) })
 	return "panic-" + v.proc
 }
 
@@ -569,11 +595,17 @@ func (p *recProc) OnStart(_ context.Context, s sdktrace.ReadWriteSpan) {
 		st.spans[s.SpanContext().SpanID()] = 1
 	}
 	st.mu.Unlock()
+	if first {
+		pi.pid = "st"
+		st.gateLine(pi, "proc.OnStart")
+	}
 	if first && st.sc.EndInOnStart { // a processor is allowed to end the span it is told about
-		st.emit(map[string]any{"ev": "Call", "op": "End", "proc": pi.name, "span": 1, "arg": 0})
+		pi.pid = "e0"
+		st.emit(st.with(pi, map[string]any{"ev": "Call", "op": "End", "proc": pi.name, "span": 1, "arg": 0}))
 		s.End()
 		st.endRets.Add(1)
-		st.emit(map[string]any{"ev": "Ret", "op": "End", "proc": pi.name, "span": 1, "arg": 0, "val": false})
+		st.emit(st.with(pi, map[string]any{"ev": "Ret", "op": "End", "proc": pi.name, "span": 1, "arg": 0, "val": false}))
+		pi.pid = "st"
 	}
 }
 
@@ -600,10 +632,21 @@ func (p *recProc) OnEnd(ro sdktrace.ReadOnlySpan) {
 	if span == 1 {
 		st.gate(pi.name, fmt.Sprintf("onend:p%d", p.idx))
 	}
-	st.emit(map[string]any{"ev": "OnEnd", "p": p.idx, "span": span, "proc": pi.name, "et": et,
+	ev := map[string]any{"ev": "OnEnd", "p": p.idx, "span": span, "proc": pi.name, "et": et,
 		"full": pr.full, "partial": pr.partial, "child": child,
 		"evmiss": pr.evmiss, "evdrop": pr.evdrop, "lkmiss": pr.lkmiss, "lkdrop": pr.lkdrop,
-		"datt": ro.DroppedAttributes(), "dev": ro.DroppedEvents(), "dlk": ro.DroppedLinks()})
+		"datt": ro.DroppedAttributes(), "dev": ro.DroppedEvents(), "dlk": ro.DroppedLinks()}
+	if st.sc.Impl && span == 1 { // the calls whose tokens are wholly in the snapshot, the End call whose timestamp it carries
+		fullp := []string{}
+		st.mu.Lock()
+		for _, t := range pr.full {
+			fullp = append(fullp, st.tokPid[t])
+		}
+		ev["fullp"], ev["etp"] = fullp, st.tsPid[et]
+		st.mu.Unlock()
+		st.with(pi, ev)
+	}
+	st.emit(ev)
 	st.mu.Lock()
 	st.keep = append(st.keep, kept{p.idx, span, ro, d0})
 	if span == 1 && p.idx <= len(st.handed) {
@@ -621,6 +664,7 @@ func (p *recProc) Shutdown(ctx context.Context) error {
 		return nil
 	}
 	st := pi.st
+	st.gateLine(pi, "proc.Shutdown")
 	st.gate(pi.name, "proc.Shutdown")
 	if st.sc.ReentReg {
 		p.tp.RegisterSpanProcessor(&recProc{idx: 97})
@@ -632,9 +676,9 @@ func (p *recProc) Shutdown(ctx context.Context) error {
 			st.spawn(fmt.Sprintf("g%d", k), &wg, func(name string) {
 				late := &recProc{idx: st.sc.NProcs + k}
 				st.arrive(name + "@call")
-				st.emit(map[string]any{"ev": "Call", "op": "Reg", "proc": name, "span": 0, "arg": late.idx})
+				st.emit(map[string]any{"ev": "Call", "op": "Reg", "proc": name, "pid": name, "span": 0, "arg": late.idx})
 				p.tp.RegisterSpanProcessor(late)
-				st.emit(map[string]any{"ev": "Ret", "op": "Reg", "proc": name, "span": 0, "arg": late.idx, "val": false})
+				st.emit(map[string]any{"ev": "Ret", "op": "Reg", "proc": name, "pid": name, "span": 0, "arg": late.idx, "val": false})
 				st.arrive(name + "@ret+")
 			})
 		}
@@ -691,9 +735,11 @@ func runScenario(scn int, sc Scenario, tw *vh.TraceWriter, res *vh.Result, hooks
 	sched.MaxSleep = 60 * time.Microsecond
 	sched.KeepLog = os.Getenv("VERIF_C10_DEBUG") != ""
 	st := &scState{scn: scn, tw: tw, sched: sched, scripted: sc.Script != nil, sc: sc, lim: sc.Lim, spans: map[trace.SpanID]int{}, ets: map[int][]time.Time{},
-		kinds: map[int]string{}, rw: map[int]sdktrace.ReadWriteSpan{}, handed: make([]int, sc.NProcs+sc.Regs), child: -1}
+		kinds: map[int]string{}, rw: map[int]sdktrace.ReadWriteSpan{}, handed: make([]int, sc.NProcs+sc.Regs), child: -1,
+		tokPid: map[int]string{}, tsPid: map[int]string{}}
 	cur.Store(st)
-	st.emit(map[string]any{"ev": "Cfg", "rt": sc.RT, "nprocs": sc.NProcs, "hooks": hooks, "name": sc.Name, "lim": sc.Lim, "sampled": !sc.RecordOnly, "zero": sc.Zero})
+	st.emit(map[string]any{"ev": "Cfg", "rt": sc.RT, "nprocs": sc.NProcs, "hooks": hooks, "name": sc.Name, "lim": sc.Lim, "sampled": !sc.RecordOnly, "zero": sc.Zero,
+		"impl": sc.Impl, "withstart": sc.EndInOnStart, "reentreg": sc.ReentReg})
 
 	opts := []sdktrace.TracerProviderOption{sdktrace.WithSampler(decSampler{sc.RecordOnly})}
 	rps := []*recProc{}
@@ -751,7 +797,11 @@ func runScenario(scn int, sc Scenario, tw *vh.TraceWriter, res *vh.Result, hooks
 		if !ok {
 			return
 		}
-		st.emit(map[string]any{"ev": "Hook", "point": point, "proc": pi.name, "span": n})
+		ev := map[string]any{"ev": "Hook", "point": point, "proc": pi.name, "span": n}
+		if n == 1 {
+			st.with(pi, ev)
+		}
+		st.emit(ev)
 		res.Count("hook@"+point, 1)
 		if n == 1 {
 			st.gate(pi.name, point)
@@ -800,9 +850,19 @@ func runScenario(scn int, sc Scenario, tw *vh.TraceWriter, res *vh.Result, hooks
 			time.Sleep(time.Duration(r.Intn(80)) * time.Microsecond)
 		}
 	}
-	call := func(name, op string, span, arg int, f func() bool) {
+	// the processes of the scenario as SpanEnd.tla sees them: one per CALL (pid)
+	icfg := map[string][]string{"enders": {}, "panickers": {}, "mutators": {}, "shared": {}, "usermut": {}, "evmut": {}, "zeromut": {},
+		"children": {}, "readers": {}, "registrars": {}, "stoppers": {}, "unregs": {}, "waitfor": {}}
+	if sc.EndInOnStart {
+		icfg["enders"] = append(icfg["enders"], "e0")
+	}
+	call := func(name, pid, op string, span, arg int, f func() bool) {
 		st.arrive(name + "@call")
-		ev := map[string]any{"ev": "Call", "op": op, "proc": name, "span": span, "arg": arg}
+		pi := me()
+		if pi != nil {
+			pi.pid = pid
+		}
+		ev := st.with(pi, map[string]any{"ev": "Call", "op": op, "proc": name, "span": span, "arg": arg})
 		if op == "Mut" { // what the call adds to the dropped counters when every limit is 0
 			w := [3]int{}
 			if sc.Zero {
@@ -815,7 +875,7 @@ func runScenario(scn int, sc Scenario, tw *vh.TraceWriter, res *vh.Result, hooks
 		if op == "End" && span == 1 {
 			st.endRets.Add(1)
 		}
-		st.emit(map[string]any{"ev": "Ret", "op": op, "proc": name, "span": span, "arg": arg, "val": val})
+		st.emit(st.with(pi, map[string]any{"ev": "Ret", "op": op, "proc": name, "span": span, "arg": arg, "val": val}))
 		st.arrive(name + "@ret+")
 	}
 	per := func(n int) int {
@@ -827,6 +887,18 @@ func runScenario(scn int, sc Scenario, tw *vh.TraceWriter, res *vh.Result, hooks
 	var tsCtr int64
 	for i := 1; i <= sc.Enders; i++ {
 		name := fmt.Sprintf("e%d", i)
+		epid := func(k int) string {
+			if i > sc.Panickers || k > 0 {
+				return fmt.Sprintf("%s.%d", name, k+1)
+			}
+			return fmt.Sprintf("%s.%d.p", name, k+1)
+		}
+		for k := 0; k < per(sc.EndsPer); k++ {
+			icfg["enders"] = append(icfg["enders"], epid(k))
+			if i <= sc.Panickers && k == 0 {
+				icfg["panickers"] = append(icfg["panickers"], epid(k))
+			}
+		}
 		start(name, func(r *rand.Rand) {
 			for k := 0; k < per(sc.EndsPer); k++ {
 				jitter(r)
@@ -835,9 +907,12 @@ func runScenario(scn int, sc Scenario, tw *vh.TraceWriter, res *vh.Result, hooks
 				if sc.TS {
 					arg = int(atomic.AddInt64(&tsCtr, 1))
 					o = append(o, trace.WithTimestamp(tsBase.Add(time.Duration(arg)*time.Second)))
+					st.mu.Lock()
+					st.tsPid[arg] = epid(k)
+					st.mu.Unlock()
 				}
 				if i > sc.Panickers || k > 0 {
-					call(name, "End", 1, arg, func() bool { span.End(o...); return false })
+					call(name, epid(k), "End", 1, arg, func() bool { span.End(o...); return false })
 					continue
 				}
 				// End as a deferred call during a real panic: its recover branch formats the panic value
@@ -851,7 +926,7 @@ func runScenario(scn int, sc Scenario, tw *vh.TraceWriter, res *vh.Result, hooks
 				if r.Intn(3) == 0 {
 					o = append(o, trace.WithStackTrace(true))
 				}
-				call(name, "End", 1, arg, func() bool {
+				call(name, epid(k), "End", 1, arg, func() bool {
 					defer func() {
 						if x := recover(); x != pv {
 							panic(x) // not ours: a panic inside End
@@ -876,11 +951,29 @@ func runScenario(scn int, sc Scenario, tw *vh.TraceWriter, res *vh.Result, hooks
 			}
 			toks, kinds = append(toks, tok), append(kinds, kd)
 			st.kinds[tok] = kd
+			// how SpanEnd.tla sees the call (the kind is part of the name: one name = one kind in every scenario)
+			pid := fmt.Sprintf("%s.%d.%s", name, k+1, kd)
+			if sc.Zero {
+				pid += "0"
+			}
+			st.tokPid[tok] = pid
+			icfg["mutators"] = append(icfg["mutators"], pid)
+			switch {
+			case sc.Zero && kd == "attrs": // observable only through the dropped-attributes counter
+				icfg["zeromut"] = append(icfg["zeromut"], pid)
+			case kd == "attrs": // the snapshot aliases the attribute array
+				icfg["shared"] = append(icfg["shared"], pid)
+			case (kd == "event" || kd == "error" || kd == "uerror") && !sc.Zero: // one entry of the event FIFO
+				icfg["evmut"] = append(icfg["evmut"], pid)
+			}
+			if kd == "uerror" { // RecordError runs err.Error(): the gate
+				icfg["usermut"] = append(icfg["usermut"], pid)
+			}
 		}
 		start(name, func(r *rand.Rand) {
 			for k := range toks {
 				jitter(r)
-				call(name, "Mut", 1, toks[k], func() bool {
+				call(name, st.tokPid[toks[k]], "Mut", 1, toks[k], func() bool {
 					if kinds[k] == "uerror" { // RecordError with an error whose Error method is a gate
 						res.Count("recorderror_with_gate_error", 1)
 						ge := &gateErr{st: st, proc: name, msg: fmt.Sprintf("t%d", toks[k]), r: r}
@@ -900,16 +993,20 @@ func runScenario(scn int, sc Scenario, tw *vh.TraceWriter, res *vh.Result, hooks
 	for i := 1; i <= sc.Children; i++ {
 		name := fmt.Sprintf("c%d", i)
 		cno := 10 + i
+		icfg["children"] = append(icfg["children"], name+".1")
 		start(name, func(r *rand.Rand) {
 			jitter(r)
 			var ch trace.Span
-			call(name, "Child", 1, cno, func() bool {
+			call(name, name+".1", "Child", 1, cno, func() bool {
 				_, ch = tracer.Start(trace.ContextWithSpan(context.Background(), span), "child")
 				return false
 			})
 			st.mu.Lock()
 			st.spans[ch.SpanContext().SpanID()] = cno
 			st.mu.Unlock()
+			if pi := me(); pi != nil {
+				pi.pid = name + ".2" // the child's own End: another span, no process of SpanEnd.tla
+			}
 			st.emit(map[string]any{"ev": "Call", "op": "End", "proc": name, "span": cno, "arg": 0})
 			ch.End()
 			st.emit(map[string]any{"ev": "Ret", "op": "End", "proc": name, "span": cno, "arg": 0, "val": false})
@@ -917,15 +1014,21 @@ func runScenario(scn int, sc Scenario, tw *vh.TraceWriter, res *vh.Result, hooks
 	}
 	for i := 1; i <= sc.Readers; i++ {
 		name := fmt.Sprintf("r%d", i)
+		for k := 0; k < per(sc.ReadsPer); k++ {
+			icfg["readers"] = append(icfg["readers"], fmt.Sprintf("%s.%d", name, k+1))
+		}
 		start(name, func(r *rand.Rand) {
 			for k := 0; k < per(sc.ReadsPer); k++ {
 				jitter(r)
-				call(name, "IsRec", 1, 0, func() bool { return span.IsRecording() })
+				call(name, fmt.Sprintf("%s.%d", name, k+1), "IsRec", 1, 0, func() bool { return span.IsRecording() })
 			}
 		})
 	}
 	for i := 1; i <= sc.ETimers; i++ {
 		name := fmt.Sprintf("t%d", i)
+		for k := 0; k < per(sc.ReadsPer) && st.rw[0] != nil; k++ { // EndTime() = lock, read endTime, unlock: a reader
+			icfg["readers"] = append(icfg["readers"], fmt.Sprintf("%s.%d", name, k+1))
+		}
 		start(name, func(r *rand.Rand) {
 			for k := 0; k < per(sc.ReadsPer); k++ {
 				jitter(r)
@@ -936,9 +1039,10 @@ func runScenario(scn int, sc Scenario, tw *vh.TraceWriter, res *vh.Result, hooks
 					return
 				}
 				st.arrive(name + "@call")
-				st.emit(map[string]any{"ev": "Call", "op": "ETime", "proc": name, "span": 1, "arg": 0})
+				pid := fmt.Sprintf("%s.%d", name, k+1)
+				st.emit(map[string]any{"ev": "Call", "op": "ETime", "proc": name, "pid": pid, "span": 1, "arg": 0})
 				et := st.etID(1, rw.EndTime())
-				st.emit(map[string]any{"ev": "Ret", "op": "ETime", "proc": name, "span": 1, "arg": et, "val": false})
+				st.emit(map[string]any{"ev": "Ret", "op": "ETime", "proc": name, "pid": pid, "span": 1, "arg": et, "val": false})
 				if r.Intn(2) == 0 {
 					st.reread()
 				}
@@ -947,16 +1051,18 @@ func runScenario(scn int, sc Scenario, tw *vh.TraceWriter, res *vh.Result, hooks
 	}
 	for i := 1; i <= sc.Stoppers; i++ {
 		name := fmt.Sprintf("s%d", i)
+		icfg["stoppers"] = append(icfg["stoppers"], name+".1")
 		start(name, func(r *rand.Rand) {
 			jitter(r)
-			call(name, "SD", 0, 0, func() bool { _ = tp.Shutdown(context.Background()); return false })
+			call(name, name+".1", "SD", 0, 0, func() bool { _ = tp.Shutdown(context.Background()); return false })
 		})
 	}
 	for i := 1; i <= sc.Unregs; i++ {
 		name := fmt.Sprintf("u%d", i)
+		icfg["unregs"] = append(icfg["unregs"], name+".1")
 		start(name, func(r *rand.Rand) {
 			jitter(r)
-			call(name, "Unreg", 0, 1, func() bool {
+			call(name, name+".1", "Unreg", 0, 1, func() bool {
 				if len(rps) > 0 {
 					tp.UnregisterSpanProcessor(rps[0])
 				}
@@ -969,7 +1075,7 @@ func runScenario(scn int, sc Scenario, tw *vh.TraceWriter, res *vh.Result, hooks
 		late := &recProc{idx: sc.NProcs + i}
 		start(name, func(r *rand.Rand) {
 			jitter(r)
-			call(name, "Reg", 0, late.idx, func() bool { tp.RegisterSpanProcessor(late); return false })
+			call(name, name, "Reg", 0, late.idx, func() bool { tp.RegisterSpanProcessor(late); return false })
 		})
 	}
 	extra := &recProc{idx: 99} // registered / unregistered while the span is in use
@@ -1001,6 +1107,19 @@ func runScenario(scn int, sc Scenario, tw *vh.TraceWriter, res *vh.Result, hooks
 				st.emit(map[string]any{"ev": "Ret", "op": "Prov", "proc": name, "span": 0, "arg": op, "val": false})
 			}
 		})
+	}
+	if sc.Impl {
+		for i := 1; i <= sc.Regs; i++ { // the i-th registrar registers processor p<nprocs+i>
+			icfg["registrars"] = append(icfg["registrars"], fmt.Sprintf("g%d", i))
+			if i > sc.Regs-sc.WaitFor {
+				icfg["waitfor"] = append(icfg["waitfor"], fmt.Sprintf("g%d", i))
+			}
+		}
+		ev := map[string]any{"ev": "ICfg", "provs": sc.Provs}
+		for k, v := range icfg {
+			ev[k] = v
+		}
+		st.emit(ev)
 	}
 	close(begin)
 	// No operation of this scenario blocks on anything but span.mu, the provider's mutex and the gates
@@ -1798,6 +1917,7 @@ func main() {
 	resF := fs.String("res", "result.json", "")
 	hooks := fs.Bool("hooks", true, "the tree has the span.end.* instrumentation points")
 	enders := fs.Int("enders", 4, "bulk: goroutines ending each span")
+	impl := fs.Int("impl", 0, "record the implementation-level trace of the first N scenarios as well (-1: all)")
 	fs.Parse(os.Args[2:])
 	tw, err := vh.NewTraceWriter(*out)
 	vh.Must(err)
@@ -1816,6 +1936,7 @@ func main() {
 		r := rand.New(rand.NewSource(vh.Seed()))
 		for i := 0; i < *n; i++ {
 			scs = append(scs, randomScenario(r))
+			scs[i].Impl = *impl < 0 || i < *impl
 		}
 		// few runtime/trace switches: all scenarios with tracing on first
 		sort.SliceStable(scs, func(i, j int) bool { return scs[i].RT && !scs[j].RT })
@@ -1827,6 +1948,7 @@ func main() {
 			if scs[i].Seed == 0 {
 				scs[i].Seed = vh.Seed() + int64(i)
 			}
+			scs[i].Impl = *impl < 0 || i < *impl
 		}
 	default:
 		os.Exit(3)
